@@ -123,6 +123,27 @@ func run(c *hc.Ctx) error {
 			enc[r.Intn(len(enc))] ^= byte(1 << r.Intn(8))
 			data = enc
 			kind = "bitflip"
+		case k == 9 && r.Bool(): // near miss at plaintext level: one bit of SHA1(data) / data / padding flipped, then sealed
+			ans := r.Bytes(hc.Pick(r, 0, 1, 12, 28, r.Range(0, 200)))
+			dwh, err := crypto.DataWithHash(ans, r)
+			if err != nil {
+				continue
+			}
+			bit := r.Intn(20 * 8)
+			if r.Chance(40) {
+				bit = 8*hc.Pick(r, 0, 18, 19) + r.Intn(8) // first / last bytes of the hash
+			}
+			if r.Chance(15) && len(ans) > 0 {
+				bit = 160 + r.Intn(8*len(ans))
+			}
+			dwh[bit/8] ^= 1 << (bit % 8)
+			blk, err := aes.NewCipher(key)
+			if err != nil {
+				continue
+			}
+			data = make([]byte, len(dwh))
+			ige.EncryptBlocks(blk, iv, data, dwh)
+			kind = "near-miss"
 		default: // not block aligned / bad key length
 			data = r.Bytes(r.Range(1, 200))
 			if r.Bool() {
@@ -181,6 +202,9 @@ func run(c *hc.Ctx) error {
 					body := r.Bytes(r.Range(0, 40))
 					d = append(sum(body), body...)
 					d = append(d, r.Bytes(pad)...)
+					if r.Chance(40) { // near miss: one bit of the hash prefix flipped → must not be found
+						d[hc.Pick(r, 0, 10, 18, 19)] ^= 1 << r.Intn(8)
+					}
 				}
 			}
 			g := crypto.GuessDataWithHash(d)
@@ -195,7 +219,7 @@ func run(c *hc.Ctx) error {
 	if err := q.Flush(c); err != nil {
 		return err
 	}
-	c.Res.Rule = "32-byte keys and IVs (3% all-zero each); ciphertexts: 40% random block-aligned 0..4096 bytes incl. empty nil/non-nil (no padding length matches), 30% genuine EncryptExchangeAnswer outputs (answer lengths around the 16-byte alignment), 20% genuine with one flipped bit, 10% malformed (unaligned length / bad key length; trivial). distinct = distinct input line"
+	c.Res.Rule = "32-byte keys and IVs (3% all-zero each); ciphertexts: 40% random block-aligned 0..4096 bytes incl. empty nil/non-nil (no padding length matches), 30% genuine EncryptExchangeAnswer outputs (answer lengths around the 16-byte alignment), 20% genuine with one flipped ciphertext bit, 5% near misses (one bit of the SHA-1 prefix or of the data flipped before sealing), 5% malformed (unaligned length / bad key length; trivial). distinct = distinct input line"
 	c.PartialNote("AES-128/192 keys and IVs whose length is not 32 are outside the model (every caller derives 32-byte key and IV with TempAESKeys); a wrong IV length makes gotd/ige panic")
 	return nil
 }
